@@ -26,10 +26,13 @@
    while fewer than ten are pending every request is answered; beyond that dropped:
         C13_echo4_answered_when_room (full), C13_echo4_dropped_when_full (full)
    short messages / other types are ignored: C13_echo4_ignored, C13_echo6_ignored (full)
-   IPv6: C13_echo6_mirrors (partial: the checksum clause needs every non-final view of the echo
-        data to have even length, e.g. a single view), C13_echo6_odd_chunk_refuted (the full
-        statement is false of the code: data in views of 3 + 4 bytes; known finding
-        C13-echo6-odd-chunk), C13_reply_route6 (full)
+   IPv6: C13_echo6_mirrors (full: every request, every split of the message into views whose first
+        view holds the 8-byte header, odd-length views included; the reply mirrors identifier,
+        sequence number and data and its checksum passes the RFC 4443 pseudo-header verification),
+        C13_echo6_odd_chunk_old_refuted (the fixed finding C13-echo6-odd-chunk: the code before
+        /repo commit 1404d7f, which summed the echo data view by view, answered data in views of
+        3 + 4 bytes with a checksum that does not verify; the repaired code's reply to the same
+        input verifies), C13_reply_route6 (full)
    never answers a request addressed to someone else: C13_echo_foreign_ignored (full on the model
         of the NIC filter used here: exact-match endpoints, no promiscuous mode / subnets /
         forwarding; the general address filter is property C09)
@@ -94,20 +97,23 @@ Theorem C13_echo6_mirrors : forall r views,
     length (p_msg p) = length (concat views) /\
     nth 0 (p_msg p) 0 = 129 /\ nth 1 (p_msg p) 0 = nth 1 (concat views) 0 /\
     echo_body (p_msg p) = echo_body (concat views) /\
-    (nonfinal_even (vv_trimFront views 8) ->
-     rfc1071_sum (pseudo6 (r_local r) (r_remote r) (Z.of_nat (length (p_msg p))) ++ p_msg p) 0 = 65535).
+    rfc1071_sum (pseudo6 (r_local r) (r_remote r) (Z.of_nat (length (p_msg p))) ++ p_msg p) 0 = 65535.
 Proof. exact handleICMP6_echo. Qed.
 Print Assumptions C13_echo6_mirrors.
 
-Theorem C13_echo6_odd_chunk_refuted :
-  exists r views p,
+(* [echo6_reply_old]: the echo branch with the icmpChecksum of before 1404d7f ([icmp6Checksum_old]) *)
+Theorem C13_echo6_odd_chunk_old_refuted :
+  exists r views p_old p,
     views_ok views /\ bytes_ok (r_local r) /\ bytes_ok (r_remote r) /\
     length (r_local r) = 16%nat /\ length (r_remote r) = 16%nat /\
     is_echo_request6 views = true /\ map (@length Z) (vv_trimFront views 8) = [3; 4]%nat /\
+    echo6_reply_old r views = Some p_old /\
+    nth 0 (p_msg p_old) 0 = 129 /\ echo_body (p_msg p_old) = echo_body (concat views) /\
+    rfc1071_sum (pseudo6 (r_local r) (r_remote r) (Z.of_nat (length (p_msg p_old))) ++ p_msg p_old) 0 <> 65535 /\
     handleICMP6 r views = Some (A6Reply p) /\
-    rfc1071_sum (pseudo6 (r_local r) (r_remote r) (Z.of_nat (length (p_msg p))) ++ p_msg p) 0 <> 65535.
-Proof. exact echo6_odd_chunk_refuted_l. Qed.
-Print Assumptions C13_echo6_odd_chunk_refuted.
+    rfc1071_sum (pseudo6 (r_local r) (r_remote r) (Z.of_nat (length (p_msg p))) ++ p_msg p) 0 = 65535.
+Proof. exact echo6_odd_chunk_old_refuted_l. Qed.
+Print Assumptions C13_echo6_odd_chunk_old_refuted.
 
 Theorem C13_echo6_ignored : forall r views,
   (length (vv_first views) < 8)%nat \/ nth 0 (vv_first views) 0 <> 128 -> echo6 r views = Ok EIgnored.
